@@ -10,7 +10,7 @@ import json, os, shutil, subprocess, sys, tempfile, time
 from concurrent.futures import ThreadPoolExecutor
 
 VERIF = os.path.dirname(os.path.dirname(os.path.abspath(__file__)))
-SCRATCH_ROOT = '/var/tmp/smolverif'
+SCRATCH_ROOT = os.path.join('/var/tmp/smolverif', str(os.getpid()))
 
 VARIANTS = []
 
@@ -722,13 +722,13 @@ S('silent-tcp-rename-local', ['C17'], T,
 
 # --------------------------------------------------------------------------------------------
 
-def make_scratch(name):
+def make_scratch(name, repo='/repo'):
     d = os.path.join(SCRATCH_ROOT, name)
     if os.path.exists(d):
         shutil.rmtree(d)
     os.makedirs(d)
     for f in ('src', 'build.rs', 'Cargo.toml', 'Cargo.lock', 'gen_config.py', 'benches', 'examples', 'tests', 'fuzz'):
-        p = os.path.join('/repo', f)
+        p = os.path.join(repo, f)
         if os.path.isdir(p):
             shutil.copytree(p, os.path.join(d, f), symlinks=True)
         elif os.path.exists(p):
@@ -738,7 +738,7 @@ def make_scratch(name):
 
 def run_variant(v, worker, repo='/repo'):
     t0 = time.time()
-    d = make_scratch(f"w{worker}")
+    d = make_scratch(f"w{worker}", repo)
     try:
         p = os.path.join(d, v['file'])
         src = open(p).read()
@@ -747,6 +747,7 @@ def run_variant(v, worker, repo='/repo'):
             return dict(id=v['id'], ok=False, why=f"anchor text occurs {n} times in {v['file']} (catalogue stale)")
         open(p, 'w').write(src.replace(v['find'], v['replace']))
         env = dict(os.environ)
+        env['VERIF_TIER'] = 'quick'
         env['VERIF_CACHE'] = os.path.join(SCRATCH_ROOT, f"cache-w{worker}")
         props = v.get('props', [v['prop']])
         fired = []
@@ -773,7 +774,7 @@ def run_variant(v, worker, repo='/repo'):
         shutil.rmtree(d, ignore_errors=True)
 
 
-def run_many(vs, workers=8):
+def run_many(vs, workers=8, repo='/repo'):
     os.makedirs(SCRATCH_ROOT, exist_ok=True)
     res = []
     import queue
@@ -784,7 +785,7 @@ def run_many(vs, workers=8):
     def job(v):
         w = q.get()
         try:
-            return run_variant(v, w)
+            return run_variant(v, w, repo)
         finally:
             q.put(w)
     with ThreadPoolExecutor(max_workers=workers) as ex:
@@ -797,15 +798,16 @@ def cleanup():
     shutil.rmtree(SCRATCH_ROOT, ignore_errors=True)
 
 
-def run_patch(patch, props, worker=0):
+def run_patch(patch, props, worker=0, repo='/repo'):
     """apply a unified diff to a scratch copy and run the checks of the given properties"""
     os.makedirs(SCRATCH_ROOT, exist_ok=True)
-    d = make_scratch(f"p{worker}")
+    d = make_scratch(f"p{worker}", repo)
     try:
         r = subprocess.run(['patch', '-p1', '-s', '-i', os.path.abspath(patch)], cwd=d, capture_output=True, text=True)
         if r.returncode != 0:
             return dict(ok=False, why='patch does not apply: ' + r.stdout[-300:] + r.stderr[-300:])
         env = dict(os.environ)
+        env['VERIF_TIER'] = 'quick'
         env['VERIF_CACHE'] = os.path.join(SCRATCH_ROOT, f"cache-w{worker}")
         env['VERIF_EVIDENCE_DIR'] = os.path.join(SCRATCH_ROOT, f"evidence-w{worker}")
         out = {}
